@@ -18,7 +18,7 @@ open Cicada.Jobs
 
 /-- which code is modelled and in which setting it runs -/
 structure Cfg where
-  /-- the parent calls `setpgid(child, pgid)` too (src/core.rs, since `fix:` 35a9330) -/
+  /-- the parent calls `setpgid(child, pgid)` too (src/core.rs, since `fix:` 59a1f03) -/
   parentSetpgid : Bool := true
   /-- `sh.has_terminal ∧ isatty(1)`: the interactive session the property is about -/
   interactive : Bool := true
